@@ -503,6 +503,51 @@ static void run_convert(const FieldIdx& A, Ctx& c) {
 }
 
 // ================================================================================================ dot products
+// the documented single-element primitives of reim4_arithmetic.h: dest = 0, dest = a + b, dest = a * b, dest += a * b on one reim4
+// element (4 complex numbers, re0..re3 im0..im3); alias 1/2: dest is the first / second operand (element-wise, so well defined)
+static void run_elem(const FieldIdx& A, Ctx& c) {
+  const int op = (int)A("op"), alias = (int)A("alias"), vfam = (int)A("vfam"), prefill = (int)A("prefill");
+  Rng r((uint64_t)A("seed"));
+  Arena ar;
+  Buf U = ar.alloc(64, amode(r), amis(r)), V = ar.alloc(64, amode(r), amis(r)), D = ar.alloc(64, amode(r), amis(r), prefill, (uint64_t)A("seed"));
+  double *u = U.as<double>(), *v = V.as<double>(), *d = D.as<double>();
+  gen_vec(u, 8, r, vfam);
+  gen_vec(v, 8, r, vfam);
+  if (op == 3) gen_vec(d, 8, r, vfam);  // accumulator
+  static const char* nm[] = {"reim4_zero", "reim4_add", "reim4_mul", "reim4_add_mul"};
+  double* dst = (alias == 1 && (op == 1 || op == 2)) ? u : (alias == 2 && (op == 1 || op == 2)) ? v : d;
+  double u0[8], v0[8], d0[8];
+  memcpy(u0, u, 64); memcpy(v0, v, 64); memcpy(d0, d, 64);
+  Acc e[8];
+  for (int t = 0; t < 4; ++t) {
+    const double a = u0[t], b = u0[t + 4], cc = v0[t], dd = v0[t + 4];
+    switch (op) {
+      case 0: break;
+      case 1: e[t].add(a); e[t].add(cc); e[t + 4].add(b); e[t + 4].add(dd); break;
+      case 3: e[t].add(d0[t]); e[t + 4].add(d0[t + 4]);  // fall through
+      default: e[t].prod(a, cc); e[t].prod(b, dd, -1); e[t + 4].prod(a, dd); e[t + 4].prod(b, cc);
+    }
+  }
+  switch (op) {
+    case 0: reim4_zero(dst); break;
+    case 1: reim4_add(dst, u, v); break;
+    case 2: reim4_mul(dst, u, v); break;
+    default: reim4_add_mul(dst, u, v);
+  }
+  c.notef("%s alias=%d vfam=%s", nm[op], alias, vfam_name[vfam]);
+  Worst w;
+  for (int t = 0; t < 8; ++t) {
+    if (op == 0) { if (dst[t] != 0.0 || std::signbit(dst[t])) return c.failf("reim4_zero: dest[%d] = %a", t, dst[t]); continue; }
+    if (!close_enough(dst[t], e[t], op == 3 ? F_ADDMUL : F_MUL, w))
+      return c.failf("%s alias=%d: dest[%d] = %a, exact %La, S=%La, allowed (2*terms+4)*2^-53*S", nm[op], alias, t, dst[t], e[t].v, e[t].S);
+  }
+  if (dst != u && memcmp(u, u0, 64)) return c.failf("%s modified its first operand", nm[op]);
+  if (dst != v && memcmp(v, v0, 64)) return c.failf("%s modified its second operand", nm[op]);
+  if (ar.check_canaries() >= 0) return c.failf("%s wrote outside its 8 doubles", nm[op]);
+  c.nontrivial = op >= 1;
+  c.cls(std::string("elem:") + nm[op]);
+}
+
 static void run_dot(const FieldIdx& A, Ctx& c) {
   const uint64_t nrows = (uint64_t)A("nrows");
   const int vfam = (int)A("vfam"), prefill = (int)A("prefill");
@@ -888,6 +933,7 @@ std::vector<Sub> vh_subs() {
                        {"prefill2", 0, 2}, SEED},
                       run_convert));
   subs.push_back(make("dot", {{"nrows", 0, 64}, {"vfam", 0, NVFAM - 1}, {"prefill", 0, 3}, SEED}, run_dot));
+  subs.push_back(make("elem", {{"op", 0, 3}, {"alias", 0, 2}, {"vfam", 0, NVFAM - 1}, {"prefill", 0, 3}, SEED}, run_elem));
   subs.push_back(make("pointwise",
                       {{"k", 0, 16}, {"layout", 0, 2}, {"op", 0, 1}, {"entry", 0, 6}, {"vfam", 0, NVFAM - 1}, {"prefill", 0, 3}, SEED}, run_pointwise));
   subs.push_back(make("convolution",
